@@ -1079,7 +1079,7 @@ def task_registry_ownership(ctx, rid: str) -> None:
     tm = p.cls("TaskManager")
     n = 0
     for name, f in tm.methods.items():
-        for x in own_nodes(f.node):
+        for x in ast.walk(f.node):
             removes = None
             if isinstance(x, ast.Call) and isinstance(x.func, ast.Attribute) and x.func.attr in ("pop", "clear", "popitem") and norm(x.func.value).endswith("_tasks_by_owner"):
                 removes = x
@@ -1097,7 +1097,7 @@ def task_registry_ownership(ctx, rid: str) -> None:
                  f"results are delivered to a later activation", removes)
     c.expect(rid, "removals of owner entries in TaskManager", n, 1, tm.methods["cancel_by_owner"])
     addf = tm.methods["add"]
-    disc = [x for x in own_nodes(addf.node) if isinstance(x, ast.Call) and isinstance(x.func, ast.Attribute) and x.func.attr in ("discard", "remove")]
+    disc = [x for x in ast.walk(addf.node) if isinstance(x, ast.Call) and isinstance(x.func, ast.Attribute) and x.func.attr in ("discard", "remove")]
     c.ob(rid, bool(disc), addf, "completed-task-discarded", "a completed task is discarded from its owner's set" if disc else
          "TaskManager.add no longer discards a completed task from the registry", addf.node)
 
